@@ -210,14 +210,27 @@ fn rewrite_case(u: &mut Choices, sz: Size) -> CaseResult {
             V::Map(m) => m.iter().map(|(_, v)| v).find(|v| v.get("Type") == Some(&V::Str(ty.clone()))).cloned(),
             _ => None,
         });
-        let body = g.gen_cnf(u, res_ctx.as_ref(), 1, &Vars::default(), RefCtx::Inner);
+        // block-level variables (resource-relative queries, function calls, literals): resolved
+        // per resource in both spellings
+        g.wide = u.chance(1, 2);
+        let (lets, lv) = if u.chance(3, 5) {
+            let mut l = g.gen_lets(u, res_ctx.as_ref(), 1, "tv");
+            if l.0.is_empty() {
+                l = g.gen_lets(u, res_ctx.as_ref(), 1, "tw");
+            }
+            l
+        } else {
+            (vec![], Vars::default())
+        };
+        g.wide = false;
+        let body = g.gen_cnf(u, res_ctx.as_ref(), 1, &lv, RefCtx::Inner);
         let when = if u.chance(1, 3) { Some(g.gen_cond(u, Some(&doc), 0, &Vars::default())) } else { None };
-        let tb = Item::TypeBlock { ty: ty.clone(), when: when.clone(), lets: vec![], body: body.clone() };
+        let tb = Item::TypeBlock { ty: ty.clone(), when: when.clone(), lets: lets.clone(), body: body.clone() };
         let q = Query {
             head: Head::Key("Resources".into()),
             parts: vec![Part::Star, Part::Filter(vec![vec![Item::Clause(cl_bin(q_key(&["Type"]), BinOp::Eq, false, Lit::V(V::Str(ty.clone()))))]])],
         };
-        let blk = Item::Block { some: false, q, notempty: false, lets: vec![], body };
+        let blk = Item::Block { some: false, q, notempty: false, lets, body };
         let explicit = match when {
             Some(w) => Item::When { cond: w, lets: vec![], body: vec![vec![blk]] },
             None => blk,
@@ -249,7 +262,7 @@ fn rewrite_case(u: &mut Choices, sz: Size) -> CaseResult {
 
 pub fn run(tier: Tier, seed: u64) -> i32 {
     let spec = EvidenceSpec {
-        rule: "Stage 'variants': a generated wide AST is printed canonically and under a choice stream that picks, per token occurrence, a documented synonym (keyword case of when/some/this/keys/in/exists/empty/is_*, not/NOT/!, or/OR/|OR|, =/:=, quote kind, .n vs [n], leading this., true/True, null/NULL, bare map keys) and a layout (indent unit, blank lines, trailing blanks, line breaks inside lists and filters, # comments after clauses, between clauses, after `{`, before `}`, at file start, missing final newline); parse-tree JSON (locations removed, leading This dropped) must be equal and verdicts on two documents equal. Stage 'forced' enumerates (program index x token class x alternative) with that alternative forced at every occurrence. Stage 'rewrites': type block vs Resources.*[ Type == 'T' ] { .. }, bare clauses vs rule default { .. } (verdicts only). Non-trivial: >=3 synonym classes and >=1 comment differ (forced: the class occurs); distinct by hash of both texts.".into(),
+        rule: "Stage 'variants': a generated wide AST is printed canonically and under a choice stream that picks, per token occurrence, a documented synonym (keyword case of when/some/this/keys/in/exists/empty/is_*, not/NOT/!, or/OR/|OR|, =/:=, quote kind, .n vs [n], leading this., true/True, null/NULL, bare map keys) and a layout (indent unit, blank lines, trailing blanks, line breaks inside lists and filters, # comments after clauses, between clauses, after `{`, before `}`, at file start, missing final newline); parse-tree JSON (locations removed, leading This dropped) must be equal and verdicts on two documents equal. Stage 'forced' enumerates (program index x token class x alternative) with that alternative forced at every occurrence. Stage 'rewrites': type block vs Resources.*[ Type == 'T' ] { .. } (with block-level `let`s over resource-relative queries, function calls and literals), bare clauses vs rule default { .. } (verdicts only). Non-trivial: >=3 synonym classes and >=1 comment differ (forced: the class occurs); distinct by hash of both texts.".into(),
         assumptions: vec!["only spellings the grammar comment / docs list are treated as synonyms (`! in` with a blank, `<<` glued to `<` are not)".into()],
     };
     execute("C14", tier, seed, spec, &replay, &|run: &Session| {
